@@ -25,8 +25,8 @@ package test
 //@   requires leafAction != nil
 //@   ensures[C20] leaf: !container(val) ==> leafcalls == old(leafcalls) + 1 && fevisits == old(fevisits) + 1
 //@   ensures[C20] mono: leafcalls >= old(leafcalls) && fevisits >= old(fevisits) + 1
-//@   ensures[C20] arr: val is rel.Array ==> fevisits >= old(fevisits) + 1 + len(val.(rel.Array).values)
-//@   loop 0 invariant leafcalls >= old(leafcalls) && fevisits >= old(fevisits) + 1 + $idx
+//@   ensures[C20] arr: val is rel.Array && nn(val.(rel.Array).values) ==> fevisits >= old(fevisits) + 1 + len(val.(rel.Array).values)
+//@   loop 0 invariant leafcalls >= old(leafcalls) && fevisits >= old(fevisits) + 1 && (nn(val.(rel.Array).values) ==> fevisits >= old(fevisits) + 1 + $idx)
 //@   loop 1 invariant leafcalls >= old(leafcalls) && fevisits >= old(fevisits) + 1
 //@   loop 2 invariant leafcalls >= old(leafcalls) && fevisits >= old(fevisits) + 1 && e != nil
 
